@@ -43,6 +43,7 @@ def check(c: Check):
     clause_j(c)
     clause_k(c)
     clause_l(c)
+    clause_m(c)
     from .common import sweep_records
     sweep_records(c, 'C07-rec', ['exactly_lib.section_document', 'exactly_lib.util.line_source'], floor=8)
 
@@ -697,3 +698,41 @@ def clause_l(c: Check):
                  'the error about %s is reported at %s: the line number and text shown are those of another line' % (
                      unparse(src_r), unparse(loc_r)[:70]), s.loc)
     c.floor('C07-l', 'file source errors built from a caught element error', n, 1)
+
+
+# ---------------------------------------------------------------- m
+def clause_m(c: Check):
+    """SIB one notion of "this line is a section header": the document parser decides where an element ends and a new
+    section begins, the act-phase parser decides where the act source ends - both by the same predicate on the text
+    of the line (resolved callee identity).  With two notions a line that one of them takes for a header and the other
+    does not (`[assert`, `[assert] # note`) is either swallowed into the act source or handed to an instruction
+    parser, instead of being reported as a malformed header at its line."""
+    ix = c.ix
+    dp = ix.func('exactly_lib.section_document.impl.document_parser:_Impl.current_line_is_section_line')
+    ap_cls = ix.cls('exactly_lib.processing.parse.act_phase_source_parser:ActPhaseParser')
+    ap = ix.class_member(ap_cls, 'parse')
+    syn = 'exactly_lib.section_document.syntax'
+
+    def header_predicates(f):
+        out = []
+        for call, d in util.calls_in(ix, f):
+            if isinstance(d, FuncDef) and d.module.name == syn and len(call.args) == 1:
+                out.append(d)
+        return out
+
+    a, b = header_predicates(dp), header_predicates(ap)
+    c.require(len(a) == 1, 'C07-m: the header test of the document parser is not a single predicate of syntax (%s)' % [x.name for x in a])
+    # the act parser: the predicate that guards its `break`
+    guards = []
+    for n in walk_own(ap.node):
+        if isinstance(n, ast.If) and any(isinstance(x, ast.Break) for st_ in n.body + n.orelse for x in ast.walk(st_)):
+            for x in ast.walk(n.test):
+                if isinstance(x, ast.Call):
+                    d = ix.callee(ap.module, ap, x)
+                    if isinstance(d, FuncDef):
+                        guards.append(d)
+    c.require(len(guards) >= 1, 'C07-m: the condition that ends the act source is not found')
+    c.expect(all(g is a[0] for g in guards), 'C07-m', 'one-header-predicate',
+             'the document parser recognises a section header with %s, the act-phase parser ends the act source with %s: '
+             'a line that only one of them takes for a header is not reported as a malformed header' % (
+                 a[0].name, sorted({g.name for g in guards})), ap.loc())
